@@ -11,6 +11,7 @@ import (
 	"os"
 	"sort"
 	"strings"
+	"sync"
 
 	"golang.org/x/tools/go/ssa"
 )
@@ -21,6 +22,7 @@ import (
 // conversions, operand order of commutative operators and source positions do
 // not matter.
 type Canon struct {
+	inNeg bool
 	p      *Program
 	fn     *ssa.Function
 	memo   map[ssa.Value]string
@@ -272,41 +274,7 @@ func (c *Canon) render(v ssa.Value, d int) string {
 	case *ssa.UnOp:
 		switch v.Op {
 		case token.MUL:
-			switch x := v.X.(type) {
-			case *ssa.FieldAddr:
-				lv := c.lval(x, d)
-				if s, ok := selectLitField(lv); ok {
-					return s
-				}
-				return lv
-			case *ssa.IndexAddr:
-				return c.lval(x, d)
-			case *ssa.Global:
-				return c.termD(x, d+1)
-			case *ssa.Alloc:
-				t := c.termD(x, d)
-				if t == "↺" {
-					return "↺"
-				}
-				if strings.HasPrefix(t, "&{") && strings.HasSuffix(t, "}") {
-					return t[2 : len(t)-1]
-				}
-				if strings.HasPrefix(t, "&μ(") {
-					return t[1:]
-				}
-				if strings.HasPrefix(t, "&") && strings.HasSuffix(t, "}") && strings.Contains(t, "{") {
-					return t[1:]
-				}
-				if x.Comment != "" {
-					return c.localName(x)
-				}
-			case *ssa.FreeVar:
-				if t, ok := c.capturedValue(x); ok {
-					return t
-				}
-				return "‹" + x.Name() + "›"
-			}
-			return "*" + c.termD(v.X, d+1)
+			return c.derefTerm(v.X, d)
 		case token.NOT:
 			return "!" + c.termD(v.X, d+1)
 		case token.ARROW:
@@ -393,6 +361,9 @@ func (c *Canon) render(v ssa.Value, d int) string {
 		}
 		return c.termD(v.Tuple, d) + "#" + fmt.Sprint(v.Index)
 	case *ssa.Call:
+		if a, b, ok := hashIsEqual(v); ok {
+			return "[" + c.hashEqAtom(a, b, true, d) + "]"
+		}
 		if c.inlined(v.Common()) != nil {
 			if s, ok := c.boolTerm(v); ok {
 				return s
@@ -780,6 +751,101 @@ func (c *Canon) cmp2(op token.Token, x, y ssa.Value, d int) string {
 	return xs + " " + op.String() + " " + ys
 }
 
+// derefTerm renders the value loaded through the pointer px (what `*px` denotes).
+func (c *Canon) derefTerm(px ssa.Value, d int) string {
+	switch x := px.(type) {
+	case *ssa.FieldAddr:
+		lv := c.lval(x, d)
+		if s, ok := selectLitField(lv); ok {
+			return s
+		}
+		return lv
+	case *ssa.IndexAddr:
+		return c.lval(x, d)
+	case *ssa.Global:
+		return c.termD(x, d+1)
+	case *ssa.Alloc:
+		t := c.termD(x, d)
+		if t == "↺" {
+			return "↺"
+		}
+		if strings.HasPrefix(t, "&{") && strings.HasSuffix(t, "}") {
+			return t[2 : len(t)-1]
+		}
+		if strings.HasPrefix(t, "&μ(") {
+			return t[1:]
+		}
+		if strings.HasPrefix(t, "&") && strings.HasSuffix(t, "}") && strings.Contains(t, "{") {
+			return t[1:]
+		}
+		if x.Comment != "" {
+			return c.localName(x)
+		}
+	case *ssa.FreeVar:
+		if t, ok := c.capturedValue(x); ok {
+			return t
+		}
+		return "‹" + x.Name() + "›"
+	}
+	return "*" + c.termD(px, d+1)
+}
+
+// nonNilPtr: the pointer is an address the program took itself (of a variable, field or element),
+// or the result of a function all of whose returns are such addresses.
+func nonNilPtr(v ssa.Value, depth int) bool {
+	switch x := v.(type) {
+	case *ssa.Alloc, *ssa.FieldAddr, *ssa.IndexAddr, *ssa.Global:
+		return true
+	case *ssa.Call:
+		fn := x.Common().StaticCallee()
+		if fn == nil || fn.Blocks == nil || depth > 1 || fn.Signature.Results().Len() != 1 {
+			return false
+		}
+		n := 0
+		for _, b := range fn.Blocks {
+			if len(b.Instrs) == 0 {
+				continue
+			}
+			if r, ok := b.Instrs[len(b.Instrs)-1].(*ssa.Return); ok {
+				if len(r.Results) != 1 || !nonNilPtr(r.Results[0], depth+1) {
+					return false
+				}
+				n++
+			}
+		}
+		return n > 0
+	}
+	return false
+}
+
+// hashIsEqual recognises (*chainhash.Hash).IsEqual(a, b) with both pointers provably non-nil: it is
+// then exactly the array comparison *a == *b (the method's nil handling cannot be reached).
+func hashIsEqual(v *ssa.Call) (ssa.Value, ssa.Value, bool) {
+	fn := v.Common().StaticCallee()
+	if fn == nil || fn.Name() != "IsEqual" || fn.Signature.Recv() == nil || len(v.Common().Args) != 2 {
+		return nil, nil, false
+	}
+	if fn.Pkg == nil || !strings.HasSuffix(strings.TrimSuffix(fn.Pkg.Pkg.Path(), "/v2"), "chaincfg/chainhash") {
+		return nil, nil, false
+	}
+	a, b := v.Common().Args[0], v.Common().Args[1]
+	if !nonNilPtr(a, 0) || !nonNilPtr(b, 0) {
+		return nil, nil, false
+	}
+	return a, b, true
+}
+
+func (c *Canon) hashEqAtom(a, b ssa.Value, pos bool, d int) string {
+	xs, ys := c.derefTerm(a, d+1), c.derefTerm(b, d+1)
+	if xs > ys {
+		xs, ys = ys, xs
+	}
+	if pos {
+		return xs + " == " + ys
+	}
+	return xs + " != " + ys
+}
+
 func stripConv(v ssa.Value) ssa.Value {
 	for {
 		switch x := v.(type) {
@@ -796,6 +862,39 @@ func stripConv(v ssa.Value) ssa.Value {
 // condAtom renders a branch condition as an atom that is true on the branch
 // taken (pos=true: the If's true successor).
 func (c *Canon) condAtom(cond ssa.Value, pos bool) string {
+	a := c.condAtom0(cond, pos)
+	if !c.inNeg {
+		c.inNeg = true
+		b := c.condAtom0(cond, !pos)
+		c.inNeg = false
+		registerNeg(a, b)
+	}
+	return a
+}
+
+var (
+	negMu  sync.Mutex
+	negMap = map[string]string{}
+)
+
+// registerNeg records that two atoms are each other's negation (both renderings of one condition).
+func registerNeg(a, b string) {
+	if a == b || a == "true" || a == "false" {
+		return
+	}
+	negMu.Lock()
+	negMap[a], negMap[b] = b, a
+	negMu.Unlock()
+}
+
+func negAtomOf(a string) (string, bool) {
+	negMu.Lock()
+	b, ok := negMap[a]
+	negMu.Unlock()
+	return b, ok
+}
+
+func (c *Canon) condAtom0(cond ssa.Value, pos bool) string {
 	switch v := cond.(type) {
 	case *ssa.BinOp:
 		if isCmp(v.Op) {
@@ -813,6 +912,9 @@ func (c *Canon) condAtom(cond ssa.Value, pos bool) string {
 			return "false"
 		}
 	case *ssa.Call:
+		if a, b, ok := hashIsEqual(v); ok {
+			return c.hashEqAtom(a, b, pos, 0)
+		}
 		if hf := c.inlined(v.Common()); hf != nil && hf.mode == rejNone && v.Common().Signature().Results().Len() == 1 {
 			if rv, ok := hf.resultValue(0); ok {
 				return hf.c.condAtom(rv, pos)
